@@ -9,7 +9,7 @@ N8 == {<<0,0,0,0,0,0,0,0>>, <<1,0,0,0,0,0,0,0>>, <<255,0,0,0,0,0,0,0>>, <<0,1,0,
 N4 == {<<0,0,0,0>>, <<127,17,1,0>>, <<255,255,255,127>>, <<0,0,0,128>>, <<255,255,255,255>>}   \* 0, 70015, 2^31-1, 2^31, 2^32-1
 Ip == [i \in 1..16 |-> 57 + i]
 Ua(n) == [i \in 1..n |-> 32 + (i % 90)]
-Counts == {0, 1, 2, 252, 253, 254} \cup (IF Big THEN {65535, 65536} ELSE {})
+Counts == {0, 1, 2, 252, 253, 254}
 Hash(i) == [j \in 1..HashLen |-> (i * 7 + j) % 256]
 TypeSeq == <<MSG_TX, MSG_BLOCK, MSG_FILTERED_BLOCK, MSG_CMPCT_BLOCK, MSG_TX + WFLAG, MSG_BLOCK + WFLAG>>
 
@@ -33,7 +33,13 @@ AddrCases ==
     {[k |-> "addr", v |-> [addrs |-> [i \in 1..n |-> [time |-> tm, services |-> <<(i % 256),4,0,0,0,0,0,128>>, ip |-> Ip,
                                                      port |-> IF (i % 2) = 0 THEN pt ELSE 65535 - pt]]]] :
         n \in Counts, tm \in N4, pt \in {0, 8333}}
-Cases == PingCases \cup VersionCases \cup GetHeadersCases \cup InvCases \cup AddrCases
+(* the FD/FE boundary of CompactSize (beyond what the protocol allows in these messages; thorough tier only) *)
+BigCases == IF ~Big THEN {}
+            ELSE {[k |-> "getheaders", v |-> [pv |-> <<127,17,1,0>>, hashes |-> [i \in 1..n |-> Hash(i)], stop |-> Hash(0)]] : n \in {65535, 65536}}
+                 \cup {[k |-> "inv", v |-> [items |-> [i \in 1..65536 |-> [type |-> TypeSeq[(i % 6) + 1], hash |-> Hash(i)]]]]}
+                 \cup {[k |-> "addr", v |-> [addrs |-> [i \in 1..65536 |-> [time |-> <<255,255,255,255>>, services |-> <<(i % 256),4,0,0,0,0,0,128>>,
+                                                                            ip |-> Ip, port |-> 8333]]]]}
+Cases == PingCases \cup VersionCases \cup GetHeadersCases \cup InvCases \cup AddrCases \cup BigCases
 
 Init == c \in Cases
 Next == UNCHANGED c
